@@ -205,6 +205,17 @@ fn mutants(case: &Case, honest: &packed::BlockFilters, thorough: bool) -> Vec<(S
             push("start-number-shifted", format!("{:+}", d), s as u64, &hashes, &filters);
         }
     }
+    // the authentic filters (and hashes) of the blocks one / two check point intervals LOWER under
+    // the expected start number: they chain correctly against a hash list that is attributed to
+    // the wrong heights (a list based on an earlier check point)
+    for lower in [4u64, 8] {
+        if start > lower && n > 0 {
+            let f: Vec<packed::Bytes> = (0..n as u64).map(|i| chain.filters[(start + i - lower) as usize].clone()).collect();
+            let h: Vec<packed::Byte32> = (0..n as u64).map(|i| chain.blocks[(start + i - lower) as usize].hash()).collect();
+            push("all:=blocks-one-or-two-intervals-lower", format!("-{} filters+hashes", lower), start, &h, &f);
+            push("all:=blocks-one-or-two-intervals-lower", format!("-{} filters only", lower), start, &hashes, &f);
+        }
+    }
     push("start-number-shifted", "=0".to_owned(), 0, &hashes, &filters);
     push("start-number-shifted", "=u64::MAX".to_owned(), u64::MAX, &hashes, &filters);
     if n > 0 {
